@@ -92,6 +92,7 @@ func RunHistory(p *Profile, hist []Event, expect []string, trace io.Writer) (w *
 	w = New(p)
 	defer func() {
 		if r := recover(); nil != r {
+			neverSettles(r)
 			err = fmt.Errorf("panic during %s: %v", HistString(hist), r)
 		}
 	}()
@@ -211,6 +212,7 @@ func expand(p *Profile, t task) (rp reply) {
 		func() {
 			defer func() {
 				if r := recover(); nil != r {
+					neverSettles(r)
 					rp.Err = fmt.Sprintf("panic during %s %s: %v", HistString(t.Hist), e, r)
 				}
 			}()
@@ -575,4 +577,16 @@ func Explore(p *Profile, nproc int, deadline time.Time) (*Result, error) {
 		res.CapNote = fmt.Sprintf("%d of %d states would not replay (the program's behaviour is not a function of the history); %s", res.Unstable, res.States, res.CapNote)
 	}
 	return res, nil
+}
+
+// neverSettles ends the process if r says that the world did not come to rest
+// within 30 s: some goroutine of the program keeps running (a loop that no
+// longer blocks).  The process cannot be used any further; its death with
+// this message is what the parent reports, like any other crash of the
+// program under test (twice on the same history = a violation).
+func neverSettles(r any) {
+	if s := fmt.Sprint(r); strings.Contains(s, "world does not settle") {
+		fmt.Fprintln(os.Stderr, "panic: "+s)
+		os.Exit(2)
+	}
 }
